@@ -47,6 +47,8 @@ vTSlice = make([]int64, 2)
 vTStr = []string{"x", "y"}
 vPSlice = make([]*int64, 1)
 vTMap = make(map[string]int64)
+vNMap = make([]map[string]float64, 1)
+vNStruct = make(struct{M map[string]int64, S []string})
 vStruct = make(struct{A int64, B string, C []int64, P *int64})
 vPtr = new(int64)
 vPStruct = new(struct{A int64})
@@ -66,7 +68,8 @@ var c01Operands = []string{"vNil", "vTrue", "vInt", "vNeg", "vBig", "vMax", "vFl
 	"vMod", "vPSlice[0]", "vList[3]", "vMap.l", "vMap.m", "vBoxed[0]", "vBoxed[1]", "vBoxed[2]", "vIStruct", "gId(vList)", "gId(vMap)", "vIStruct.A", "gId", "gAdd", "gVar", "gTyped", "gPanicErr", "gPanicStr", "gPanicVal", "gErr", "gMulti", "gApply", "gApply2",
 	"0", "1", "-1", "2", "1.5", `"s"`, `""`, "nil", "true", "[]", "{}", "[1, 2]", `{"k": 1}`, "vList[0]", "vMap.a", "vMod.x", "undefinedName",
 	"func(){ return 1 }", "func(a...){ return a }", "9223372036854775807", "4611686018427387904", "make([]int64, 2)", "new(int64)", "*vPtr", "&vInt",
-	"vStruct.A", "vStruct.C", "vStruct.P", "len(vList)", "vFunc(1)", "gId(vPtr)", "gId(vChan)"}
+	"vStruct.A", "vStruct.C", "vStruct.P", "len(vList)", "vFunc(1)", "gId(vPtr)", "gId(vChan)",
+	"vNMap[0]", "vNStruct.M", "vNStruct.S", "make([]map[string]int64, 1)[0]", "make([]map[int64]string, 1)[0]", "make([][]int64, 1)[0]", "gPanicV", "[0, 10, 0]", "[1, 2, 3, 4]"}
 
 // every production of the grammar with operand holes; $A $B $C are replaced ignoring types
 var c01Templates = []string{
@@ -76,6 +79,7 @@ var c01Templates = []string{
 	"$A($B)", "$A($B, $C)", "$A()", "$A($B...)", "$A($B, $C...)", "$A(...)", "vFunc($A...)", "vFunc5($A...)", "vFunc5($A, $B...)", "gAdd($A...)", "gAdd($A, $B...)", "gVar($A...)", "gVar($A, $B...)",
 	"gTyped($A, $B)", "gId($A)", "gAdd($A, $B)", "gVar($A, $B, $C)", "gMulti($A)", "gApply($A)", "gApply2($A, $B)", "gErr($A)", "gPanicErr($A)", "gPanicStr($A)", "gPanicVal($A)",
 	"go $A($B)", "go $A()", "go $A($B...)", "go vFunc($A)", "go gId($A)", "go gPanicErr($A)", "go gPanicVal($A)", "go gApply($A)", "go func(){ $A }()", "go func(a){ a[0] }($A)",
+	"go range($A...)", "go range($A, $B...)", "go gPanicV($A...)", "go gPanicV($A, $B...)", "go gVar($A...)", "go gAdd($A...)", "go vFuncV($A...)", "go keys($A...)", "go toString($A...)", "defer gPanicV($A...)", "defer range($A...)", "gPanicV($A...)",
 	"defer $A($B)", "defer $A()", "defer $A($B...)", "defer gPanicErr($A)", "defer gPanicVal($A)", "defer vFunc($A)", "defer func(){ $A }()", "defer gApply($A)",
 	"x = $A", "x, y = $A, $B", "x, y = $A", "x, y, z = $A", "var x = $A", "var x, y = $A, $B", "var x, y = $A", "var x =", "x =", "var = $A", "= $A", "x, = $A",
 	"x = $A; x++", "x = $A; x--", "x = $A; x += $B", "x = $A; x -= $B", "x = $A; x *= $B", "x = $A; x /= $B", "x = $A; x &= $B", "x = $A; x |= $B", "$A++", "$A[$B]++", "$A.x += $B",
@@ -125,6 +129,7 @@ func c01NewEnv() *env.Env {
 	e.Define("gPanicErr", func(a interface{}) interface{} { panic(errors.New("host error")) })
 	e.Define("gPanicStr", func(a interface{}) interface{} { panic("host string panic") })
 	e.Define("gPanicVal", func(a interface{}) interface{} { panic(struct{ X int }{42}) })
+	e.Define("gPanicV", func(rest ...interface{}) interface{} { panic(fmt.Errorf("host variadic panic %d", len(rest))) })
 	e.Define("gErr", func(a interface{}) (interface{}, error) { return a, errors.New("host failure") })
 	e.Define("gMulti", func(a interface{}) (interface{}, int64, string) { return a, 2, "three" })
 	e.Define("gApply", func(f func() interface{}) interface{} { return f() })
@@ -207,7 +212,8 @@ var c01Fixed = []string{
 	"m = {}; x = &m[\"missing\"]; *x = 5; m.other", "try { break } catch e { e.s }", "try { throw 1 } catch e { [e.Message, e.Pos, e.message] }", "make(type X, 1).size", "t = make(type X, vStruct); t.str", "a = [[1, 2]]; m = {}; m[a[0]] = 1", "a = [[1, 2]]; {a[0]: 1}", "a = [{}]; m = {}; delete(m, a[0])", "a = [[1]]; m = {}; m[a[0]]", "a = <", "a, ok = <", "vFunc(...)", "f = func(a){ return a }; f(...)", "gAdd([1, \"a\"]...)", "gAdd([1, 2]...)", "[]int64{4, 5} + [nil]",
 	"p = new(int64); *p = \"s\"", "a = make([]*int64, 1); for x in a { y = x }; y", "a = make([]*int64, 1); *a[0]",
 	"c = make(chan *int64, 1); c <- make([]*int64, 1)[0]; for x in c { y = x; break }; y", "\"s\" * 9223372036854775807", "a = 1; make(a.b)", "a = {\"b\": 1}; make(a.b)",
-	"go gPanicErr(1)", "go gPanicVal(1)", "go func(){ [1][5] }()", "go func(a){ a[0] }(1)", "go vFunc5(1)", "go gAdd(1)", "go gApply(func(){ throw 1 })", "go gAdd(vList...)",
+	"go gPanicErr(1)", "go gPanicVal(1)", "go func(){ [1][5] }()", "go func(a){ a[0] }(1)", "go vFunc5(1)", "go gAdd(1)", "go gApply(func(){ throw 1 })", "go gAdd(vList...)", "a = []; go range(a...)", "go range([0, 10, 0]...)", "go gPanicV([1]...)", "go gPanicV(1, [2]...)", "defer gPanicV([1]...)",
+	"vNMap[0].x = 1", "vNMap[0].x = \"s\"", "vNStruct.M.k = 1.5", "make([]map[string]int64, 1)[0].k = \"s\"", "vNMap[0][\"x\"] = 1", "vNStruct.S[0] = 1",
 	"defer gPanicVal(1)", "gApply(func(){ throw 1 })", "gApply2(func(a, b){ return \"x\" }, 1)", "gApply2(func(a){ return a }, 1)", "x = 1; x.y.z = 2", "nil.x", "nil[0]", "nil()", "*nil", "<- nil", "nil <- 1",
 	"close(nil)", "for x in nil { }", "delete(nil, 1)", "len(nil)", "make(chan int64, -1)", "make([]int64, -1)", "make([]int64, 1, 0)", "make([]int64, 4611686018427387904)", "make([]int64, 9223372036854775807)",
 	"vStr * 4611686018427387904", "vList[vMax]", "vList[vBig:vMax]", "vTSlice[vNeg:]", "vMap[vList]", "vMap[vMap] = 1", "delete(vMap, vList)", "{vList: 1}", "map[string]int64{vList: 1}",
